@@ -817,7 +817,7 @@ func main() {
 	invalidByEncoder(rng.Sub(1 << 40))
 	invalidByParser(rng.Sub(2 << 40))
 
-	nb := vf.N(100000, 10000000)
+	nb := vf.N(100000, 4000000)
 	base := rng.Sub(3 << 40)
 	const chunk = 1000
 	vf.Parallel(nb/chunk, workers, func(c int) {
